@@ -13,4 +13,4 @@ for pkg in sorted(os.listdir('/verif/overlay')):
             rep[os.path.join('/repo',sub,f)]=os.path.join(d,f)
 json.dump({'Replace':rep},open('/verif/.work/dbg/ov.json','w'))
 PY
-/verif/bin/ssaexport -dir /verif/harness -overlay $W/ov.json -out $W/ssa.json -allow 'github.com/reactivego/ivg/...,vph/...,image/color,image,strings,bytes,internal/stringslite,internal/bytealg,io,errors,golang.org/x/image/math/f32' -inits 'github.com/reactivego/ivg/...,vph/...,image/color,errors,io'
+/verif/bin/ssaexport -dir /verif/harness -overlay $W/ov.json -out $W/ssa.json -allow 'github.com/reactivego/ivg/...,vph/...,image/color,image,strings,bytes,internal/stringslite,internal/bytealg,io,errors,encoding/binary,encoding/hex,math/bits,unicode/utf8,golang.org/x/image/math/f32' -inits 'github.com/reactivego/ivg/...,vph/...,image/color,errors,io'
